@@ -265,7 +265,7 @@ fn programs(kind: &str) -> Vec<(usize, Vec<Vec<Op>>)> {
             "acq1,rel|acq2,rel", "acq1,acq1,relf|acq2,rel,acq2", "acq1,lrel|acq2,lrel", "acq1,lrel,acq1|acq2,acq2,isl", "acq1,rel,bor|acq2,bor",
             "acq1,acq1|rec1,acq2", "acq1,rel|lrec1,acq2", "acq1,acq1,rel|rec1,bor", "acq1,lrel|acq2,bor,rel", "acq1,acq1,acq1|acq2,rel,acq2",
             "acq1,rel|acq2,rel|acq3,rel", "acq1,lrel|acq2,rel|bor,acq3", "acq1,acq1|rec1|acq2,rel", "acq1,rel|acq2,lrel|lrec1,isl", "acq1,lrel|acq1,lrel|acq2,acq2",
-            "acq1,rel,acq1|acq1,rel|rec1,acq1",
+            "acq1,rel,acq1|acq2,rel|rec1,acq3",
         ],
         _ => panic!("kind"),
     };
